@@ -7,6 +7,9 @@ structure FOpsX (F : Type) extends FOps F where
   inv : F → F
   div : F → F → F
   beq : F → F → Bool
+  /-- `x == E::ZERO`, `x == E::ONE` -/
+  isZero : F → Bool
+  isOne : F → Bool
   pow : F → Nat → F
 
 end Gen
